@@ -283,6 +283,7 @@ MC_QUICK = [
 MC_THOROUGH = [
     ("C09_mc_fixed", False, "as C09_mc_quick with 2 bits per fragment, plus the refinement Durability => DurabilityAbs"),
     ("C09_mc_deep", False, "4 writes (1 bit, kinds bit/roaring/rowop)"),
+    ("C09_mc_notrunc", True, "hypothetical: .snapshotting opened without O_TRUNC - a leftover of one Crash/Recover epoch reaches the data file in the next (the invariants span epochs)"),
     ("C09_mc_asfound_restart", True, "code as found: a kill after the roaring header write blocks restart"),
     ("C09_mc_asfound_translate", True, "code as found: a kill inside a chunked translate entry blocks restart"),
     ("C09_mc_asfound_acked", True, "code as found: Store/ClearRow acknowledged before the snapshot"),
